@@ -363,3 +363,122 @@ class AnglesRoundTrip(FunctionContract):
             lat = rng.random() < 0.5
             th = rng.uniform(-89, 89) if lat else rng.uniform(1, 179)
             yield dict(points=np.array([[rng.uniform(-179, 180), th]]), latitude=lat)
+
+
+class _Sy:
+    """sympy expression wrapper with the method names numpy's object-dtype ufunc loops call"""
+    def __init__(self, e):
+        self.e = e
+
+    def _w(f):
+        def m(self, o=None):
+            import sympy as sp
+            return _Sy(f(sp, self.e, o.e if isinstance(o, _Sy) else o))
+        return m
+    __add__ = _w(lambda sp, a, b: a + b)
+    __radd__ = _w(lambda sp, a, b: b + a)
+    __sub__ = _w(lambda sp, a, b: a - b)
+    __rsub__ = _w(lambda sp, a, b: b - a)
+    __mul__ = _w(lambda sp, a, b: a * b)
+    __rmul__ = _w(lambda sp, a, b: b * a)
+    __truediv__ = _w(lambda sp, a, b: a / sp.nsimplify(b) if not hasattr(b, "free_symbols") else a / b)
+    sin = _w(lambda sp, a, b: sp.sin(a))
+    cos = _w(lambda sp, a, b: sp.cos(a))
+    sqrt = _w(lambda sp, a, b: sp.sqrt(a))
+    arcsin = _w(lambda sp, a, b: sp.Function("ARCSIN")(a))
+    arccos = _w(lambda sp, a, b: sp.Function("ARCCOS")(a))
+    deg2rad = _w(lambda sp, a, b: a * sp.pi / 180)
+    rad2deg = _w(lambda sp, a, b: a * 180 / sp.pi)
+
+
+@register("C18")
+class GcircFormula:
+    """gcirc is the great-circle distance: its haversine argument equals (1 - u.v)/2 for the unit vectors u, v of the two points
+    (exact trigonometric identity on the expression captured from the real function), plus a numerical comparison with the vector formula"""
+    name = "gcirc_vector_formula"
+    prop = "C18"
+    target = "pydl.goddard.astro:gcirc"
+    level = "C"
+
+    def run_job(self, tier, seed, exclusions):
+        import random
+        import time
+        import traceback
+        import sympy as sp
+        from pyvc import amode
+        from pyvc.engine import Engine
+        t0 = time.time()
+        res = JobResult(job=self.name, target=self.target, level="C", prop="C18", obligations=[], failures=[], crashed=None, bound=None,
+                        paths=0, solver_s=0.0, queries=0, native_runs=0, native_failures=[], vacuity=None,
+                        assumptions=["symbolic coordinates as sympy expressions through the real function; identity decided by sympy's exact trigonometric simplification",
+                                     "A1 floats as reals for the identity; the numerical comparison uses a 1e-6 relative tolerance from 1e-4 arcsec to 180 deg"])
+
+        def ob(name, ok, note="", backend="polyid", inputs=None):
+            d = dict(name=self.name + ":" + name, path=0, status="unsat" if ok else "sat", secs=0.0, backend=backend, size=0, note="" if ok else note)
+            if not ok:
+                d.update(inputs=inputs, model=note, reason="")
+            res["obligations"].append(d)
+        try:
+            Engine.current = Engine("gcf")
+            fn = amode.load("pydl.goddard.astro:gcirc").fn
+            r1, d1, r2, d2 = sp.symbols("r1 d1 r2 d2", real=True)
+            for units in (0, 1, 2):
+                out = fn(_Sy(r1), _Sy(d1), _Sy(r2), _Sy(d2), units=units)
+                res["paths"] += 1
+                e = out.e
+                args = [a for a in sp.preorder_traversal(e) if getattr(a, "func", None) is not None and str(a.func) == "ARCSIN"]
+                ok_shape = len(args) >= 1
+                ob("is_two_arcsin_of_a_haversine[units=%d]" % units, ok_shape, "result %s" % e)
+                if not ok_shape:
+                    continue
+                hav = sp.nsimplify(args[0].args[0] ** 2, rational=True)      # 15.0, 2.0: float literals read as the rationals they denote (A1)
+                scale = {0: (1, 1), 1: (15 * sp.pi / 180, sp.pi / 180), 2: (sp.pi / 180, sp.pi / 180)}[units]
+                a1, b1, a2, b2 = r1 * scale[0], d1 * scale[1], r2 * scale[0], d2 * scale[1]
+                dot = sp.sin(b1) * sp.sin(b2) + sp.cos(b1) * sp.cos(b2) * sp.cos(a2 - a1)
+                diff = sp.simplify(sp.expand_trig(sp.expand(hav - (1 - dot) / 2)))
+                if diff != 0:
+                    diff = sp.simplify(sp.expand(sp.expand_trig(hav - (1 - dot) / 2).rewrite(sp.cos)))
+                ob("haversine_equals_half_one_minus_dot_product[units=%d]" % units, diff == 0, "difference %s" % str(diff)[:200])
+                outer = sp.nsimplify(e / args[0], rational=True)
+                want = {0: 2, 1: 2 * 180 / sp.pi * 3600, 2: 2 * 180 / sp.pi * 3600}[units]
+                ob("scaled_to_the_output_unit[units=%d]" % units, sp.simplify(outer - want) == 0, "factor %s" % outer)
+            # numerical comparison with the vector formula over nine decades of separation, incl. poles and antipodes
+            from pydl.goddard.astro import gcirc
+            rng = random.Random(seed + 5)
+            worst = (0.0, None)
+            for _ in range(400 if tier == "quick" else 4000):
+                ra, dec = rng.uniform(0, 360), rng.choice([rng.uniform(-89.9, 89.9), 90.0, -90.0, 0.0])
+                sepdeg = 10 ** rng.uniform(-7.5, 2.25)
+                pa = rng.uniform(0, 2 * np.pi)
+                # destination point at great-circle distance sep and position angle pa
+                s, dr = np.deg2rad(sepdeg), np.deg2rad(dec)
+                sd2 = np.sin(dr) * np.cos(s) + np.cos(dr) * np.sin(s) * np.cos(pa)
+                dec2 = np.rad2deg(np.arcsin(np.clip(sd2, -1, 1)))
+                ra2 = ra + np.rad2deg(np.arctan2(np.sin(pa) * np.sin(s) * np.cos(dr), np.cos(s) - np.sin(dr) * sd2))
+                u = np.array([np.cos(np.deg2rad(dec)) * np.cos(np.deg2rad(ra)), np.cos(np.deg2rad(dec)) * np.sin(np.deg2rad(ra)), np.sin(np.deg2rad(dec))])
+                v = np.array([np.cos(np.deg2rad(dec2)) * np.cos(np.deg2rad(ra2)), np.cos(np.deg2rad(dec2)) * np.sin(np.deg2rad(ra2)), np.sin(np.deg2rad(dec2))])
+                ref = np.rad2deg(np.arctan2(np.linalg.norm(np.cross(u, v)), np.dot(u, v))) * 3600.0
+                got = gcirc(ra, dec, ra2, dec2, units=2)
+                res["native_runs"] += 1
+                if not np.isfinite(got):
+                    worst = (np.inf, dict(ra1=ra, dec1=dec, ra2=float(ra2), dec2=float(dec2)))
+                    break
+                rel = abs(got - ref) / max(ref, 1e-12)
+                if ref > 1e-4 and rel > worst[0]:
+                    worst = (rel, dict(ra1=ra, dec1=dec, ra2=float(ra2), dec2=float(dec2), got=float(got), ref=float(ref)))
+            ob("agrees_with_vector_formula_to_1e-6", worst[0] <= 1e-6, "relative error %g at %s" % worst, backend="native-numeric", inputs=worst[1])
+            res["vacuity"] = dict(units=3)
+        except Exception:
+            res["crashed"] = traceback.format_exc()
+        res["wall_s"] = time.time() - t0
+        return res
+
+    def native_replay(self, inputs):
+        from pydl.goddard.astro import gcirc
+        a = inputs
+        u = lambda ra, dec: np.array([np.cos(np.deg2rad(dec)) * np.cos(np.deg2rad(ra)), np.cos(np.deg2rad(dec)) * np.sin(np.deg2rad(ra)), np.sin(np.deg2rad(dec))])
+        p, q = u(a["ra1"], a["dec1"]), u(a["ra2"], a["dec2"])
+        ref = np.rad2deg(np.arctan2(np.linalg.norm(np.cross(p, q)), np.dot(p, q))) * 3600.0
+        got = gcirc(a["ra1"], a["dec1"], a["ra2"], a["dec2"], units=2)
+        ok = np.isfinite(got) and abs(got - ref) <= 1e-6 * max(ref, 1e-12)
+        return (bool(ok), "gcirc=%r arcsec, vector formula=%r arcsec" % (float(got), float(ref)))
